@@ -10,6 +10,7 @@
     (FR (K hexlabel*) (K hexlabel*) (R cell*)*)   DataFrame: index, columns, rows
   ops:  (liftx call <types> <fn> <hex top> (L arg*) (D kw*))     types = ltd | plain | all,  fn = rec | ident
         (liftx txt lower|upper|strip v)
+        (liftx txt split v sep dedup)      sep a string of one character, dedup a bool
 -/
 import PygModel.LiftX
 import PygModel.Txt
@@ -103,6 +104,18 @@ def handle1 (op : String) (args : List Sexp) : Option String := do
       let top ← hexDecode top
       match ← ofSexp as, ← ofSexp kw with
       | .list as, .dict 0 kw => pure (reply (callLiftedX T f top as kw))
+      | _, _ => Option.none
+  | "txt", [.atom "split", v, sep, dd] =>
+      -- round k6: `pyg_base.split(v, sep, dedup)` with a one-character separator (closed model `libSplit`, Txt.lean)
+      let v ← Val.ofSexp v
+      match ← Val.ofSexp sep, ← Val.ofSexp dd with
+      | .cell (.str sp), .cell (.bool d) =>
+        match sp.toList with
+        | [_] =>
+          match libSplit v sp d with
+          | .ok v => pure ("ok " ++ v.render)
+          | .error e => pure ("err " ++ e.render)
+        | _ => Option.none
       | _, _ => Option.none
   | "txt", [.atom name, v] =>
       let v ← Val.ofSexp v
